@@ -280,6 +280,9 @@ class PrimMixin:
 
     p_os_path_expandvars = p_os_path_expanduser
 
+    def p_pprint_pformat(self, args, kw, st, fr, node):
+        return Opaque("formatted-string")      # the text of a rendered object: opaque (the bytes are decided bounded)
+
     def p_builtin_super(self, args, kw, st, fr, node):
         """super(Class, self): the base class as an opaque value named after the base expression in the class statement
         (`class Matcher(htmc.Matcher)` -> htmc.Matcher), so that a method call resolves to the contract of that name"""
